@@ -133,4 +133,508 @@ theorem documented_irreducibles :
 
 end Formulas
 
+-- ================================================================================================
+-- 2. The model's arithmetic is the arithmetic of the quotient ring (any commutative ring `R`)
+-- ================================================================================================
+section Arithmetic
+variable {R : Type} [CommRing R] [DecidableEq R] (inv : R → R)
+
+/-- quadratic extensions: `*`, `square`, `mul_base`, `+`, `-`, `neg`, `double`, `exp` computed by the model are the
+    operations of `R[x]/(x² - s·x - t)` -/
+theorem quad_arithmetic {s t : R} {X : Ext2 R} (h : Spec2 X s t) (a b : Quad R) (c : R) :
+    q2 s t (Quad.mul X a b) = q2 s t a * q2 s t b ∧
+    Quad.square X a = Quad.mul X a a ∧
+    q2 s t (Quad.mulBase X a c) = q2 s t a * PQ2.C c ∧
+    q2 s t (Quad.add (ringBOps R inv) a b) = q2 s t a + q2 s t b ∧
+    q2 s t (Quad.sub (ringBOps R inv) a b) = q2 s t a - q2 s t b ∧
+    q2 s t (Quad.neg (ringBOps R inv) a) = -q2 s t a ∧
+    q2 s t (Quad.double (ringBOps R inv) a) = q2 s t a + q2 s t a ∧
+    (∀ e : ℕ, q2 s t (Quad.exp (ringBOps R inv) X a e) = q2 s t a ^ e) :=
+  ⟨q2_mul h a b, q2_square h a, q2_mulBase h a c, q2_add inv a b, q2_sub inv a b, q2_neg inv a, q2_double inv a,
+    q2_exp inv h a⟩
+
+example : Spec2 (Ext2.f64 (ringOps ℤ)) 1 (-2) := q64_spec
+
+/-- cubic extensions: the same for `R[x]/(x³ - s·x - t)` -/
+theorem cube_arithmetic {s t : R} {k : FrobK R} {X : Ext3 R} (h : Spec3 X s t k) (a b : Cube R) (c : R) :
+    q3 s t (Cube.mul X a b) = q3 s t a * q3 s t b ∧
+    Cube.square X a = Cube.mul X a a ∧
+    q3 s t (Cube.mulBase X a c) = q3 s t a * PQ3.C c ∧
+    q3 s t (Cube.add (ringBOps R inv) a b) = q3 s t a + q3 s t b ∧
+    q3 s t (Cube.sub (ringBOps R inv) a b) = q3 s t a - q3 s t b ∧
+    q3 s t (Cube.neg (ringBOps R inv) a) = -q3 s t a ∧
+    q3 s t (Cube.double (ringBOps R inv) a) = q3 s t a + q3 s t a ∧
+    (∀ e : ℕ, q3 s t (Cube.exp (ringBOps R inv) X a e) = q3 s t a ^ e) :=
+  ⟨q3_mul h a b, q3_square h a, q3_mulBase h a c, q3_add inv a b, q3_sub inv a b, q3_neg inv a, q3_double inv a,
+    q3_exp inv h a⟩
+
+example : Spec3 (Ext3.f62 (ringOps ℤ)) (-2) (-2) (k62 ℤ) := c62_spec
+
+/-- polynomial arithmetic modulo the irreducible, stated without the carrier: for every commutative ring `S`,
+    homomorphism `i : R →+* S` and root `r` of `x² - s·x - t` in `S`, the map `a ↦ i a₀ + i a₁·r` sends the model's
+    product / sum / one to product / sum / one -/
+theorem quad_eval_root {s t : R} {X : Ext2 R} (h : Spec2 X s t) {S : Type} [CommRing S] (i : R →+* S) (r : S)
+    (hr : r ^ 2 = i s * r + i t) (a b : Quad R) :
+    (i (Quad.mul X a b).c0 + i (Quad.mul X a b).c1 * r = (i a.c0 + i a.c1 * r) * (i b.c0 + i b.c1 * r)) ∧
+    (i (Quad.add (ringBOps R inv) a b).c0 + i (Quad.add (ringBOps R inv) a b).c1 * r =
+      (i a.c0 + i a.c1 * r) + (i b.c0 + i b.c1 * r)) ∧
+    (i (Quad.one (ringBOps R inv)).c0 + i (Quad.one (ringBOps R inv)).c1 * r = 1) := by
+  refine ⟨?_, ?_, ?_⟩
+  · have := map_mul (PQ2.evalRoot i r hr) (q2 s t a) (q2 s t b)
+    rw [← q2_mul h] at this
+    exact this
+  · have := map_add (PQ2.evalRoot i r hr) (q2 s t a) (q2 s t b)
+    rw [← q2_add inv] at this
+    exact this
+  · have := map_one (PQ2.evalRoot (s := s) (t := t) i r hr)
+    rw [← q2_one inv] at this
+    exact this
+
+theorem cube_eval_root {s t : R} {k : FrobK R} {X : Ext3 R} (h : Spec3 X s t k) {S : Type} [CommRing S]
+    (i : R →+* S) (r : S) (hr : r ^ 3 = i s * r + i t) (a b : Cube R) :
+    (i (Cube.mul X a b).c0 + i (Cube.mul X a b).c1 * r + i (Cube.mul X a b).c2 * r ^ 2 =
+      (i a.c0 + i a.c1 * r + i a.c2 * r ^ 2) * (i b.c0 + i b.c1 * r + i b.c2 * r ^ 2)) ∧
+    (i (Cube.add (ringBOps R inv) a b).c0 + i (Cube.add (ringBOps R inv) a b).c1 * r +
+        i (Cube.add (ringBOps R inv) a b).c2 * r ^ 2 =
+      (i a.c0 + i a.c1 * r + i a.c2 * r ^ 2) + (i b.c0 + i b.c1 * r + i b.c2 * r ^ 2)) ∧
+    (i (Cube.one (ringBOps R inv)).c0 + i (Cube.one (ringBOps R inv)).c1 * r +
+      i (Cube.one (ringBOps R inv)).c2 * r ^ 2 = 1) := by
+  refine ⟨?_, ?_, ?_⟩
+  · have := map_mul (PQ3.evalRoot i r hr) (q3 s t a) (q3 s t b)
+    rw [← q3_mul h] at this
+    exact this
+  · have := map_add (PQ3.evalRoot i r hr) (q3 s t a) (q3 s t b)
+    rw [← q3_add inv] at this
+    exact this
+  · have := map_one (PQ3.evalRoot (s := s) (t := t) i r hr)
+    rw [← q3_one inv] at this
+    exact this
+
+/-- `From<B>` is an injective ring homomorphism (quadratic) -/
+theorem quad_embedding {s t : R} {X : Ext2 R} (h : Spec2 X s t) (x y : R) :
+    Quad.ofBase (ringBOps R inv) (x * y) =
+      Quad.mul X (Quad.ofBase (ringBOps R inv) x) (Quad.ofBase (ringBOps R inv) y) ∧
+    Quad.ofBase (ringBOps R inv) (x + y) =
+      Quad.add (ringBOps R inv) (Quad.ofBase (ringBOps R inv) x) (Quad.ofBase (ringBOps R inv) y) ∧
+    Quad.ofBase (ringBOps R inv) (x - y) =
+      Quad.sub (ringBOps R inv) (Quad.ofBase (ringBOps R inv) x) (Quad.ofBase (ringBOps R inv) y) ∧
+    Quad.ofBase (ringBOps R inv) (-x) = Quad.neg (ringBOps R inv) (Quad.ofBase (ringBOps R inv) x) ∧
+    Quad.ofBase (ringBOps R inv) 1 = Quad.one (ringBOps R inv) ∧
+    Quad.ofBase (ringBOps R inv) 0 = Quad.zero (ringBOps R inv) ∧
+    (Quad.ofBase (ringBOps R inv) x = Quad.ofBase (ringBOps R inv) y → x = y) := by
+  refine ⟨?_, ?_, ?_, ?_, rfl, rfl, ?_⟩
+  · apply q2_injective s t
+    rw [q2_mul h, q2_ofBase, q2_ofBase, q2_ofBase, map_mul]
+  · apply q2_injective s t
+    rw [q2_add, q2_ofBase, q2_ofBase, q2_ofBase, map_add]
+  · apply q2_injective s t
+    rw [q2_sub, q2_ofBase, q2_ofBase, q2_ofBase, map_sub]
+  · apply q2_injective s t
+    rw [q2_neg, q2_ofBase, q2_ofBase, map_neg]
+  · intro hxy
+    exact congrArg Quad.c0 hxy
+
+/-- `From<B>` is an injective ring homomorphism (cubic) -/
+theorem cube_embedding {s t : R} {k : FrobK R} {X : Ext3 R} (h : Spec3 X s t k) (x y : R) :
+    Cube.ofBase (ringBOps R inv) (x * y) =
+      Cube.mul X (Cube.ofBase (ringBOps R inv) x) (Cube.ofBase (ringBOps R inv) y) ∧
+    Cube.ofBase (ringBOps R inv) (x + y) =
+      Cube.add (ringBOps R inv) (Cube.ofBase (ringBOps R inv) x) (Cube.ofBase (ringBOps R inv) y) ∧
+    Cube.ofBase (ringBOps R inv) (x - y) =
+      Cube.sub (ringBOps R inv) (Cube.ofBase (ringBOps R inv) x) (Cube.ofBase (ringBOps R inv) y) ∧
+    Cube.ofBase (ringBOps R inv) (-x) = Cube.neg (ringBOps R inv) (Cube.ofBase (ringBOps R inv) x) ∧
+    Cube.ofBase (ringBOps R inv) 1 = Cube.one (ringBOps R inv) ∧
+    Cube.ofBase (ringBOps R inv) 0 = Cube.zero (ringBOps R inv) ∧
+    (Cube.ofBase (ringBOps R inv) x = Cube.ofBase (ringBOps R inv) y → x = y) := by
+  refine ⟨?_, ?_, ?_, ?_, rfl, rfl, ?_⟩
+  · apply q3_injective s t
+    rw [q3_mul h, q3_ofBase, q3_ofBase, q3_ofBase, map_mul]
+  · apply q3_injective s t
+    rw [q3_add, q3_ofBase, q3_ofBase, q3_ofBase, map_add]
+  · apply q3_injective s t
+    rw [q3_sub, q3_ofBase, q3_ofBase, q3_ofBase, map_sub]
+  · apply q3_injective s t
+    rw [q3_neg, q3_ofBase, q3_ofBase, map_neg]
+  · intro hxy
+    exact congrArg Cube.c0 hxy
+
+/-- quadratic conjugation (`φ ↦ s - φ`) over any commutative ring: multiplicative, additive, unital, an involution
+    (hence bijective), fixes the embedded base ring; and when `s = 1` (all three documented quadratics) it fixes
+    exactly the embedded base ring -/
+theorem quad_conjugate_automorphism {s t : R} {X : Ext2 R} (h : Spec2 X s t) (a b : Quad R) (x : R) :
+    Quad.conjugate X (Quad.mul X a b) = Quad.mul X (Quad.conjugate X a) (Quad.conjugate X b) ∧
+    Quad.conjugate X (Quad.add (ringBOps R inv) a b) =
+      Quad.add (ringBOps R inv) (Quad.conjugate X a) (Quad.conjugate X b) ∧
+    Quad.conjugate X (Quad.one (ringBOps R inv)) = Quad.one (ringBOps R inv) ∧
+    Quad.conjugate X (Quad.conjugate X a) = a ∧
+    Quad.conjugate X (Quad.ofBase (ringBOps R inv) x) = Quad.ofBase (ringBOps R inv) x ∧
+    (s = 1 → (Quad.conjugate X a = a ↔ a.c1 = 0)) := by
+  refine ⟨?_, ?_, ?_, ?_, ?_, ?_⟩
+  · apply q2_injective s t
+    rw [q2_conj h, q2_mul h, q2_mul h, q2_conj h, q2_conj h, map_mul]
+  · apply q2_injective s t
+    rw [q2_conj h, q2_add, q2_add, q2_conj h, q2_conj h, map_add]
+  · apply q2_injective s t
+    rw [q2_conj h, q2_one, map_one]
+  · apply q2_injective s t
+    rw [q2_conj h, q2_conj h, PQ2.conj_conj]
+  · apply q2_injective s t
+    rw [q2_conj h, q2_ofBase, PQ2.conj_C]
+  · intro hs
+    subst hs
+    obtain ⟨a0, a1⟩ := a
+    simp only [Quad.conjugate, Quad.ofPair, h.frobenius, Quad.mk.injEq]
+    constructor
+    · intro hh
+      simpa using hh.1
+    · intro hh
+      simp [hh]
+
+end Arithmetic
+
+-- ================================================================================================
+-- 3. Over the prime field: conjugation is `x ↦ x^p`, a field automorphism fixing exactly the base field; every
+--    non-zero element has an inverse and the model's `inv` (through the norm) computes it
+-- ================================================================================================
+section PrimeField
+variable {p : ℕ} [Fact p.Prime]
+
+/-- quadratic: `conjugate` (= `frobenius`) is the `p`-power map.  Hypothesis `hφ`: the closed fact `φ^p = s - φ`
+    (instances: `q64_phi_pow`, `q62_phi_pow`, `q128_phi_pow`). -/
+theorem quad_conjugate_eq_pow {s t : ZMod p} {X : Ext2 (ZMod p)} (h : Spec2 X s t)
+    (hφ : (PQ2.φ : PQ2 (ZMod p) s t) ^ p = ⟨s, -1⟩) (x : Quad (ZMod p)) :
+    q2 s t (Quad.conjugate X x) = q2 s t x ^ p := by
+  rw [q2_conj h, PQ2.conj_eq_pow hφ]
+
+/-- quadratic: `inv(0) = 0`; for `x ≠ 0` the model's `inv` returns (no panic of the norm assertion, no hang) an
+    element `y` with `x · y = 1` -/
+theorem quad_inverse {s t : ZMod p} {X : Ext2 (ZMod p)} (h : Spec2 X s t) (hs : s ≠ 0)
+    (hφ : (PQ2.φ : PQ2 (ZMod p) s t) ^ p = ⟨s, -1⟩) (x : Quad (ZMod p)) :
+    (x = ⟨0, 0⟩ → Quad.inv (fieldBOps p) X x = .ok ⟨0, 0⟩) ∧
+    (x ≠ ⟨0, 0⟩ → ∃ y, Quad.inv (fieldBOps p) X x = .ok y ∧ Quad.mul X x y = Quad.one (fieldBOps p)) := by
+  constructor
+  · intro hx
+    subst hx
+    exact quad_inv_zero
+  · intro hx
+    obtain ⟨y, hy, hxy⟩ := quad_inv h hs hφ x hx
+    refine ⟨y, hy, ?_⟩
+    apply q2_injective s t
+    rw [q2_mul h, hxy]
+    rfl
+
+/-- quadratic: `x / y` (for `y ≠ 0`) is the element `z` with `z · y = x` -/
+theorem quad_division {s t : ZMod p} {X : Ext2 (ZMod p)} (h : Spec2 X s t) (hs : s ≠ 0)
+    (hφ : (PQ2.φ : PQ2 (ZMod p) s t) ^ p = ⟨s, -1⟩) (x y : Quad (ZMod p)) (hy : y ≠ ⟨0, 0⟩) :
+    ∃ z, Quad.div (fieldBOps p) X x y = .ok z ∧ Quad.mul X z y = x := by
+  obtain ⟨yi, hyi, hone⟩ := quad_inv h hs hφ y hy
+  refine ⟨Quad.mul X x yi, ?_, ?_⟩
+  · simp [Quad.div, hyi, Res.map]
+  · apply q2_injective s t
+    rw [q2_mul h, q2_mul h, mul_assoc, mul_comm (q2 s t yi), hone, mul_one]
+
+/-- cubic: `conjugate` (= `frobenius`, the linear map with the coefficients `k`) is the `p`-power map.
+    Hypothesis `H`: closed facts about the coefficients (instances: `c64_frob3`, `c62_frob3`). -/
+theorem cube_conjugate_eq_pow {s t : ZMod p} {k : FrobK (ZMod p)} {X : Ext3 (ZMod p)} (h : Spec3 X s t k)
+    (H : Frob3 s t k) (x : Cube (ZMod p)) :
+    q3 s t (Cube.conjugate X x) = q3 s t x ^ p := by
+  rw [q3_conj h, PQ3.frobK_eq_pow H]
+
+/-- cubic: conjugation is multiplicative, additive, unital, of order dividing 3 (hence bijective), fixes the
+    embedded base field and nothing else -/
+theorem cube_conjugate_automorphism {s t : ZMod p} {k : FrobK (ZMod p)} {X : Ext3 (ZMod p)} (h : Spec3 X s t k)
+    (H : Frob3 s t k) (a b : Cube (ZMod p)) (x : ZMod p) :
+    Cube.conjugate X (Cube.mul X a b) = Cube.mul X (Cube.conjugate X a) (Cube.conjugate X b) ∧
+    Cube.conjugate X (Cube.add (fieldBOps p) a b) =
+      Cube.add (fieldBOps p) (Cube.conjugate X a) (Cube.conjugate X b) ∧
+    Cube.conjugate X (Cube.one (fieldBOps p)) = Cube.one (fieldBOps p) ∧
+    Cube.conjugate X (Cube.conjugate X (Cube.conjugate X a)) = a ∧
+    Cube.conjugate X (Cube.ofBase (fieldBOps p) x) = Cube.ofBase (fieldBOps p) x ∧
+    (Cube.conjugate X a = a ↔ a.c1 = 0 ∧ a.c2 = 0) := by
+  refine ⟨?_, ?_, ?_, ?_, ?_, ?_⟩
+  · apply q3_injective s t
+    rw [cube_conjugate_eq_pow h H, q3_mul h, q3_mul h, cube_conjugate_eq_pow h H, cube_conjugate_eq_pow h H, mul_pow]
+  · apply q3_injective s t
+    rw [cube_conjugate_eq_pow h H, q3_add, q3_add, cube_conjugate_eq_pow h H, cube_conjugate_eq_pow h H,
+      add_pow_char]
+  · apply q3_injective s t
+    rw [cube_conjugate_eq_pow h H, q3_one, one_pow]
+  · apply q3_injective s t
+    rw [cube_conjugate_eq_pow h H, cube_conjugate_eq_pow h H, cube_conjugate_eq_pow h H, ← pow_mul, ← pow_mul,
+      ← mul_assoc, PQ3.pow_ppp H]
+  · apply q3_injective s t
+    rw [q3_conj h, q3_ofBase, PQ3.frobK_C]
+  · constructor
+    · intro hh
+      have := PQ3.fixed_const H (q3 s t a) (by rw [← q3_conj h, hh])
+      exact this
+    · intro hh
+      obtain ⟨a0, a1, a2⟩ := a
+      simp only at hh
+      simp [Cube.conjugate, Cube.ofTriple, h.frobenius, hh.1, hh.2]
+
+/-- cubic: `inv(0) = 0`; for `x ≠ 0` the model's `inv` returns (neither norm assertion fails, no hang) an element
+    `y` with `x · y = 1`.  No hypothesis on the norm: its non-vanishing is derived (the quotient ring is a field
+    because `x ↦ x^p` has order 3 and fixes only constants). -/
+theorem cube_inverse {s t : ZMod p} {k : FrobK (ZMod p)} {X : Ext3 (ZMod p)} (h : Spec3 X s t k)
+    (H : Frob3 s t k) (x : Cube (ZMod p)) :
+    (x = ⟨0, 0, 0⟩ → Cube.inv (fieldBOps p) X x = .ok ⟨0, 0, 0⟩) ∧
+    (x ≠ ⟨0, 0, 0⟩ → ∃ y, Cube.inv (fieldBOps p) X x = .ok y ∧ Cube.mul X x y = Cube.one (fieldBOps p)) := by
+  constructor
+  · intro hx
+    subst hx
+    exact cube_inv_zero
+  · intro hx
+    obtain ⟨y, hy, hxy⟩ := cube_inv h H x hx
+    refine ⟨y, hy, ?_⟩
+    apply q3_injective s t
+    rw [q3_mul h, hxy]
+    rfl
+
+theorem cube_division {s t : ZMod p} {k : FrobK (ZMod p)} {X : Ext3 (ZMod p)} (h : Spec3 X s t k)
+    (H : Frob3 s t k) (x y : Cube (ZMod p)) (hy : y ≠ ⟨0, 0, 0⟩) :
+    ∃ z, Cube.div (fieldBOps p) X x y = .ok z ∧ Cube.mul X z y = x := by
+  obtain ⟨yi, hyi, hone⟩ := cube_inv h H y hy
+  refine ⟨Cube.mul X x yi, ?_, ?_⟩
+  · simp [Cube.div, hyi, Res.map]
+  · apply q3_injective s t
+    rw [q3_mul h, q3_mul h, mul_assoc, mul_comm (q3 s t yi), hone, mul_one]
+
+end PrimeField
+
+-- ================================================================================================
+-- 4. The closed facts for the five documented extensions (kernel computations on the generated moduli and
+--    Frobenius coefficients), and the instantiated statements
+-- ================================================================================================
+section F64
+variable [Fact (Nat.Prime Gen.F64.M)]
+
+theorem q64_phi_pow : (PQ2.φ : PQ2 (ZMod Gen.F64.M) 1 (-2)) ^ Gen.F64.M = ⟨1, -1⟩ := by
+  have hk : powN2 Gen.F64.M 1 (Gen.F64.M - 2) 64 (1, 0) (0, 1) Gen.F64.M = (1, Gen.F64.M - 1) := by
+    decide +kernel
+  rw [phi_pow_of_powN2 (p := Gen.F64.M) (s := 1) (t := -2) 1 (Gen.F64.M - 2) (by simp)
+    (by rw [natCast_sub_self 2 (by decide)]; simp) 64 (by decide) 1 (Gen.F64.M - 1) hk]
+  ext <;> simp [natCast_sub_self 1 (by decide : 1 ≤ Gen.F64.M)]
+
+theorem c64_frob3 : Frob3 (p := Gen.F64.M) 1 1 (k64 (ZMod Gen.F64.M)) where
+  h1 := by
+    have hk : powN3 Gen.F64.M 1 1 64 (1, 0, 0) (0, 1, 0) Gen.F64.M =
+        (10615703402128488253, 10050274602728160328, 11746561000929144102) := by decide +kernel
+    have := pow_of_powN3 (p := Gen.F64.M) (s := 1) (t := 1) 1 1 (by simp) (by simp) 64 Gen.F64.M (by decide) _ _ hk
+    have e : castN3 (1 : ZMod Gen.F64.M) 1 (0, 1, 0) = PQ3.φ := by ext <;> simp [castN3]
+    rw [e] at this
+    exact this
+  h2 := by
+    have hk : powN3 Gen.F64.M 1 1 64 (1, 0, 0) (0, 0, 1) Gen.F64.M =
+        (6700183068485440220, 14531223735771536287, 8396469466686423992) := by decide +kernel
+    have := pow_of_powN3 (p := Gen.F64.M) (s := 1) (t := 1) 1 1 (by simp) (by simp) 64 Gen.F64.M (by decide) _ _ hk
+    have e : castN3 (1 : ZMod Gen.F64.M) 1 (0, 0, 1) = PQ3.φ ^ 2 := by rw [PQ3.φ_sq]; ext <;> simp [castN3]
+    rw [e] at this
+    exact this
+  h3 := by
+    have hk1 : powN3 Gen.F64.M 1 1 64 (1, 0, 0)
+        (10615703402128488253, 10050274602728160328, 11746561000929144102) Gen.F64.M =
+        (7831040667286096068, 8396469466686423992, 6700183068485440219) := by decide +kernel
+    have hk2 : powN3 Gen.F64.M 1 1 64 (1, 0, 0)
+        (7831040667286096068, 8396469466686423992, 6700183068485440219) Gen.F64.M = (0, 1, 0) := by
+      decide +kernel
+    have a1 := pow_of_powN3 (p := Gen.F64.M) (s := 1) (t := 1) 1 1 (by simp) (by simp) 64 Gen.F64.M (by decide) _ _ hk1
+    have a2 := pow_of_powN3 (p := Gen.F64.M) (s := 1) (t := 1) 1 1 (by simp) (by simp) 64 Gen.F64.M (by decide) _ _ hk2
+    have e : castN3 (1 : ZMod Gen.F64.M) 1 (0, 1, 0) = PQ3.φ := by ext <;> simp [castN3]
+    rw [e] at a2
+    rw [← a2, ← a1]
+    rfl
+  hd := by
+    have hc : (k64 (ZMod Gen.F64.M)).k01 * (k64 (ZMod Gen.F64.M)).k12 -
+        (k64 (ZMod Gen.F64.M)).k02 * ((k64 (ZMod Gen.F64.M)).k11 - 1) =
+        ((10615703402128488253 * 14531223735771536287 +
+          6700183068485440220 * (Gen.F64.M + 1 - 10050274602728160328) : ℕ) : ZMod Gen.F64.M) := by
+      simp only [k64]
+      rw [Nat.cast_add, Nat.cast_mul, Nat.cast_mul, Nat.cast_sub (by decide), Nat.cast_add, ZMod.natCast_self]
+      push_cast
+      ring
+    rw [hc, Ne, ZMod.natCast_eq_zero_iff]
+    decide +kernel
+
+/-- f64 quadratic extension (x² - x + 2) -/
+theorem q64_field (x y : Quad (ZMod Gen.F64.M)) :
+    (q2 1 (-2) (Quad.conjugate (Ext2.f64 (ringOps (ZMod Gen.F64.M))) x) = q2 1 (-2) x ^ Gen.F64.M) ∧
+    (Quad.inv (fieldBOps Gen.F64.M) (Ext2.f64 (ringOps _)) ⟨0, 0⟩ = .ok ⟨0, 0⟩) ∧
+    (x ≠ ⟨0, 0⟩ → ∃ z, Quad.inv (fieldBOps Gen.F64.M) (Ext2.f64 (ringOps _)) x = .ok z ∧
+      Quad.mul (Ext2.f64 (ringOps _)) x z = Quad.one (fieldBOps Gen.F64.M)) ∧
+    (y ≠ ⟨0, 0⟩ → ∃ z, Quad.div (fieldBOps Gen.F64.M) (Ext2.f64 (ringOps _)) x y = .ok z ∧
+      Quad.mul (Ext2.f64 (ringOps _)) z y = x) :=
+  ⟨quad_conjugate_eq_pow q64_spec q64_phi_pow x, (quad_inverse q64_spec one_ne_zero q64_phi_pow _).1 rfl,
+    (quad_inverse q64_spec one_ne_zero q64_phi_pow x).2, quad_division q64_spec one_ne_zero q64_phi_pow x y⟩
+
+/-- f64 cubic extension (x³ - x - 1) -/
+theorem c64_field (x y : Cube (ZMod Gen.F64.M)) :
+    (q3 1 1 (Cube.conjugate (Ext3.f64 (ringOps (ZMod Gen.F64.M))) x) = q3 1 1 x ^ Gen.F64.M) ∧
+    (Cube.inv (fieldBOps Gen.F64.M) (Ext3.f64 (ringOps _)) ⟨0, 0, 0⟩ = .ok ⟨0, 0, 0⟩) ∧
+    (x ≠ ⟨0, 0, 0⟩ → ∃ z, Cube.inv (fieldBOps Gen.F64.M) (Ext3.f64 (ringOps _)) x = .ok z ∧
+      Cube.mul (Ext3.f64 (ringOps _)) x z = Cube.one (fieldBOps Gen.F64.M)) ∧
+    (y ≠ ⟨0, 0, 0⟩ → ∃ z, Cube.div (fieldBOps Gen.F64.M) (Ext3.f64 (ringOps _)) x y = .ok z ∧
+      Cube.mul (Ext3.f64 (ringOps _)) z y = x) :=
+  ⟨cube_conjugate_eq_pow c64_spec c64_frob3 x, (cube_inverse c64_spec c64_frob3 _).1 rfl,
+    (cube_inverse c64_spec c64_frob3 x).2, cube_division c64_spec c64_frob3 x y⟩
+
+end F64
+
+section F62
+variable [Fact (Nat.Prime Gen.F62.M)]
+
+theorem q62_phi_pow : (PQ2.φ : PQ2 (ZMod Gen.F62.M) 1 1) ^ Gen.F62.M = ⟨1, -1⟩ := by
+  have hk : powN2 Gen.F62.M 1 1 64 (1, 0) (0, 1) Gen.F62.M = (1, Gen.F62.M - 1) := by decide +kernel
+  rw [phi_pow_of_powN2 (p := Gen.F62.M) (s := 1) (t := 1) 1 1 (by simp) (by simp) 64 (by decide) 1
+    (Gen.F62.M - 1) hk]
+  ext <;> simp [natCast_sub_self 1 (by decide : 1 ≤ Gen.F62.M)]
+
+theorem c62_frob3 : Frob3 (p := Gen.F62.M) (-2) (-2) (k62 (ZMod Gen.F62.M)) where
+  h1 := by
+    have hk : powN3 Gen.F62.M (Gen.F62.M - 2) (Gen.F62.M - 2) 64 (1, 0, 0) (0, 1, 0) Gen.F62.M =
+        (2061766055618274781, 2868591307402993000, 2699230790596717670) := by decide +kernel
+    have hm : ((Gen.F62.M - 2 : ℕ) : ZMod Gen.F62.M) = -2 := by rw [natCast_sub_self 2 (by decide)]; simp
+    have := pow_of_powN3 (p := Gen.F62.M) (s := -2) (t := -2) _ _ hm hm 64 Gen.F62.M (by decide) _ _ hk
+    have e : castN3 (-2 : ZMod Gen.F62.M) (-2) (0, 1, 0) = PQ3.φ := by ext <;> simp [castN3]
+    rw [e] at this
+    exact this
+  h2 := by
+    have hk : powN3 Gen.F62.M (Gen.F62.M - 2) (Gen.F62.M - 2) 64 (1, 0, 0) (0, 0, 1) Gen.F62.M =
+        (786836585661389001, 3336695525575160559, 1743033688129053336) := by decide +kernel
+    have hm : ((Gen.F62.M - 2 : ℕ) : ZMod Gen.F62.M) = -2 := by rw [natCast_sub_self 2 (by decide)]; simp
+    have := pow_of_powN3 (p := Gen.F62.M) (s := -2) (t := -2) _ _ hm hm 64 Gen.F62.M (by decide) _ _ hk
+    have e : castN3 (-2 : ZMod Gen.F62.M) (-2) (0, 0, 1) = PQ3.φ ^ 2 := by rw [PQ3.φ_sq]; ext <;> simp [castN3]
+    rw [e] at this
+    exact this
+  h3 := by
+    have hk1 : powN3 Gen.F62.M (Gen.F62.M - 2) (Gen.F62.M - 2) 64 (1, 0, 0)
+        (2061766055618274781, 2868591307402993000, 2699230790596717670) Gen.F62.M =
+        (2549858939913771556, 1743033688129053336, 1912394204935328667) := by decide +kernel
+    have hk2 : powN3 Gen.F62.M (Gen.F62.M - 2) (Gen.F62.M - 2) 64 (1, 0, 0)
+        (2549858939913771556, 1743033688129053336, 1912394204935328667) Gen.F62.M = (0, 1, 0) := by
+      decide +kernel
+    have hm : ((Gen.F62.M - 2 : ℕ) : ZMod Gen.F62.M) = -2 := by rw [natCast_sub_self 2 (by decide)]; simp
+    have a1 := pow_of_powN3 (p := Gen.F62.M) (s := -2) (t := -2) _ _ hm hm 64 Gen.F62.M (by decide) _ _ hk1
+    have a2 := pow_of_powN3 (p := Gen.F62.M) (s := -2) (t := -2) _ _ hm hm 64 Gen.F62.M (by decide) _ _ hk2
+    have e : castN3 (-2 : ZMod Gen.F62.M) (-2) (0, 1, 0) = PQ3.φ := by ext <;> simp [castN3]
+    rw [e] at a2
+    rw [← a2, ← a1]
+    rfl
+  hd := by
+    have hc : (k62 (ZMod Gen.F62.M)).k01 * (k62 (ZMod Gen.F62.M)).k12 -
+        (k62 (ZMod Gen.F62.M)).k02 * ((k62 (ZMod Gen.F62.M)).k11 - 1) =
+        ((2061766055618274781 * 3336695525575160559 +
+          786836585661389001 * (Gen.F62.M + 1 - 2868591307402993000) : ℕ) : ZMod Gen.F62.M) := by
+      simp only [k62]
+      rw [Nat.cast_add, Nat.cast_mul, Nat.cast_mul, Nat.cast_sub (by decide), Nat.cast_add, ZMod.natCast_self]
+      push_cast
+      ring
+    rw [hc, Ne, ZMod.natCast_eq_zero_iff]
+    decide +kernel
+
+/-- f62 quadratic extension (x² - x - 1) -/
+theorem q62_field (x y : Quad (ZMod Gen.F62.M)) :
+    (q2 1 1 (Quad.conjugate (Ext2.f62 (ringOps (ZMod Gen.F62.M))) x) = q2 1 1 x ^ Gen.F62.M) ∧
+    (Quad.inv (fieldBOps Gen.F62.M) (Ext2.f62 (ringOps _)) ⟨0, 0⟩ = .ok ⟨0, 0⟩) ∧
+    (x ≠ ⟨0, 0⟩ → ∃ z, Quad.inv (fieldBOps Gen.F62.M) (Ext2.f62 (ringOps _)) x = .ok z ∧
+      Quad.mul (Ext2.f62 (ringOps _)) x z = Quad.one (fieldBOps Gen.F62.M)) ∧
+    (y ≠ ⟨0, 0⟩ → ∃ z, Quad.div (fieldBOps Gen.F62.M) (Ext2.f62 (ringOps _)) x y = .ok z ∧
+      Quad.mul (Ext2.f62 (ringOps _)) z y = x) :=
+  ⟨quad_conjugate_eq_pow q62_spec q62_phi_pow x, (quad_inverse q62_spec one_ne_zero q62_phi_pow _).1 rfl,
+    (quad_inverse q62_spec one_ne_zero q62_phi_pow x).2, quad_division q62_spec one_ne_zero q62_phi_pow x y⟩
+
+/-- f62 cubic extension (x³ + 2x + 2) -/
+theorem c62_field (x y : Cube (ZMod Gen.F62.M)) :
+    (q3 (-2) (-2) (Cube.conjugate (Ext3.f62 (ringOps (ZMod Gen.F62.M))) x) = q3 (-2) (-2) x ^ Gen.F62.M) ∧
+    (Cube.inv (fieldBOps Gen.F62.M) (Ext3.f62 (ringOps _)) ⟨0, 0, 0⟩ = .ok ⟨0, 0, 0⟩) ∧
+    (x ≠ ⟨0, 0, 0⟩ → ∃ z, Cube.inv (fieldBOps Gen.F62.M) (Ext3.f62 (ringOps _)) x = .ok z ∧
+      Cube.mul (Ext3.f62 (ringOps _)) x z = Cube.one (fieldBOps Gen.F62.M)) ∧
+    (y ≠ ⟨0, 0, 0⟩ → ∃ z, Cube.div (fieldBOps Gen.F62.M) (Ext3.f62 (ringOps _)) x y = .ok z ∧
+      Cube.mul (Ext3.f62 (ringOps _)) z y = x) :=
+  ⟨cube_conjugate_eq_pow c62_spec c62_frob3 x, (cube_inverse c62_spec c62_frob3 _).1 rfl,
+    (cube_inverse c62_spec c62_frob3 x).2, cube_division c62_spec c62_frob3 x y⟩
+
+end F62
+
+section F128
+variable [Fact (Nat.Prime Gen.F128.M)]
+
+theorem q128_phi_pow : (PQ2.φ : PQ2 (ZMod Gen.F128.M) 1 1) ^ Gen.F128.M = ⟨1, -1⟩ := by
+  have hk : powN2 Gen.F128.M 1 1 128 (1, 0) (0, 1) Gen.F128.M = (1, Gen.F128.M - 1) := by decide +kernel
+  rw [phi_pow_of_powN2 (p := Gen.F128.M) (s := 1) (t := 1) 1 1 (by simp) (by simp) 128 (by decide) 1
+    (Gen.F128.M - 1) hk]
+  ext <;> simp [natCast_sub_self 1 (by decide : 1 ≤ Gen.F128.M)]
+
+/-- f128 quadratic extension (x² - x - 1) -/
+theorem q128_field (x y : Quad (ZMod Gen.F128.M)) :
+    (q2 1 1 (Quad.conjugate (Ext2.f128 (ringOps (ZMod Gen.F128.M))) x) = q2 1 1 x ^ Gen.F128.M) ∧
+    (Quad.inv (fieldBOps Gen.F128.M) (Ext2.f128 (ringOps _)) ⟨0, 0⟩ = .ok ⟨0, 0⟩) ∧
+    (x ≠ ⟨0, 0⟩ → ∃ z, Quad.inv (fieldBOps Gen.F128.M) (Ext2.f128 (ringOps _)) x = .ok z ∧
+      Quad.mul (Ext2.f128 (ringOps _)) x z = Quad.one (fieldBOps Gen.F128.M)) ∧
+    (y ≠ ⟨0, 0⟩ → ∃ z, Quad.div (fieldBOps Gen.F128.M) (Ext2.f128 (ringOps _)) x y = .ok z ∧
+      Quad.mul (Ext2.f128 (ringOps _)) z y = x) :=
+  ⟨quad_conjugate_eq_pow q128_spec q128_phi_pow x, (quad_inverse q128_spec one_ne_zero q128_phi_pow _).1 rfl,
+    (quad_inverse q128_spec one_ne_zero q128_phi_pow x).2, quad_division q128_spec one_ne_zero q128_phi_pow x y⟩
+
+end F128
+
+-- ================================================================================================
+-- 5. Slice reinterpretation (modelled as list flatten / unflatten) preserves every value
+-- ================================================================================================
+section Flatten
+variable {F : Type}
+
+/-- `slice_from_base_elements(slice_as_base_elements(es)) = es` -/
+theorem quad_unflatten_flatten (es : List (Quad F)) : Quad.unflatten (Quad.flatten es) = some es := by
+  induction es with
+  | nil => rfl
+  | cons a rest ih => simp [Quad.flatten, Quad.unflatten, ih]
+
+/-- `slice_as_base_elements(slice_from_base_elements(bs)) = bs` whenever the assertion passes -/
+theorem quad_flatten_unflatten (bs : List F) (es : List (Quad F)) (h : Quad.unflatten bs = some es) :
+    Quad.flatten es = bs := by
+  induction bs using Quad.unflatten.induct generalizing es with
+  | case1 => simp [Quad.unflatten] at h; subst h; rfl
+  | case2 x => simp [Quad.unflatten] at h
+  | case3 x y rest ih =>
+    simp only [Quad.unflatten, Option.map_eq_some_iff] at h
+    obtain ⟨l, hl, rfl⟩ := h
+    simp [Quad.flatten, ih l hl]
+
+/-- the assertion of `slice_from_base_elements` fails exactly when the length is odd; lengths correspond -/
+theorem quad_unflatten_none_iff (bs : List F) : Quad.unflatten bs = none ↔ bs.length % 2 = 1 := by
+  induction bs using Quad.unflatten.induct with
+  | case1 => simp [Quad.unflatten]
+  | case2 x => simp [Quad.unflatten]
+  | case3 x y rest ih =>
+    simp only [Quad.unflatten, Option.map_eq_none_iff, ih, List.length_cons]
+    omega
+
+theorem cube_unflatten_flatten (es : List (Cube F)) : Cube.unflatten (Cube.flatten es) = some es := by
+  induction es with
+  | nil => rfl
+  | cons a rest ih => simp [Cube.flatten, Cube.unflatten, ih]
+
+theorem cube_flatten_unflatten (bs : List F) (es : List (Cube F)) (h : Cube.unflatten bs = some es) :
+    Cube.flatten es = bs := by
+  induction bs using Cube.unflatten.induct generalizing es with
+  | case1 => simp [Cube.unflatten] at h; subst h; rfl
+  | case2 x => simp [Cube.unflatten] at h
+  | case3 x y => simp [Cube.unflatten] at h
+  | case4 x y z rest ih =>
+    simp only [Cube.unflatten, Option.map_eq_some_iff] at h
+    obtain ⟨l, hl, rfl⟩ := h
+    simp [Cube.flatten, ih l hl]
+
+theorem cube_unflatten_none_iff (bs : List F) : Cube.unflatten bs = none ↔ bs.length % 3 ≠ 0 := by
+  induction bs using Cube.unflatten.induct with
+  | case1 => simp [Cube.unflatten]
+  | case2 x => simp [Cube.unflatten]
+  | case3 x y => simp [Cube.unflatten]
+  | case4 x y z rest ih =>
+    simp only [Cube.unflatten, Option.map_eq_none_iff, ih, List.length_cons]
+    omega
+
+end Flatten
+
 end WinterProofs.C08
